@@ -1,5 +1,6 @@
 import E3fpVerif.Model.Db
 import E3fpVerif.Lemmas.Uniq
+import E3fpVerif.Lemmas.FpAux
 namespace E3fpVerif.Props.C17
 open E3fpVerif
 
@@ -10,5 +11,187 @@ theorem to_bit_support (f g : Fp) (h : fromFingerprint .bit f = .ok g) : g.idx =
   split at h
   · cases h
   · cases h; exact ⟨rfl, rfl⟩
+
+/-! ## a count fingerprint built from an index list counts multiplicities -/
+
+/-- `CountFingerprint(indices=ids)` : support = distinct ids, count = multiplicity -/
+theorem count_of_ids (ids : List Nat) (bits : Nat) (lvl : Int) (g : Fp)
+    (h : mkCount .count (some ids) none bits lvl = .ok g) :
+    g.idx = uniq ids ∧ g.kind = .count ∧ ∀ j, g.count j = ((ids.count j : Nat) : Rat) := by
+  unfold mkCount at h
+  simp only at h
+  split at h
+  · cases h
+  · cases h
+    refine ⟨rfl, rfl, ?_⟩
+    intro j
+    refine (Fp.count_of_ne_bit _ (by simp) j).trans ?_
+    simp only
+    by_cases hj : j ∈ uniq ids
+    · rw [lookupQ_map_of_mem (fun i => coerce .count ((ids.count i : Nat) : Rat)) _ j hj]
+      exact coerce_natCast .count _
+    · rw [lookupQ_map_of_not_mem (fun i => coerce .count ((ids.count i : Nat) : Rat)) _ j hj]
+      rw [mem_uniq] at hj
+      rw [List.count_eq_zero_of_not_mem hj]; simp
+
+/-- the same holds for the float class -/
+theorem float_of_ids (ids : List Nat) (bits : Nat) (lvl : Int) (g : Fp)
+    (h : mkCount .float (some ids) none bits lvl = .ok g) :
+    g.idx = uniq ids ∧ g.kind = .float ∧ ∀ j, g.count j = ((ids.count j : Nat) : Rat) := by
+  unfold mkCount at h
+  simp only at h
+  split at h
+  · cases h
+  · cases h
+    refine ⟨rfl, rfl, ?_⟩
+    intro j
+    refine (Fp.count_of_ne_bit _ (by simp) j).trans ?_
+    simp only
+    by_cases hj : j ∈ uniq ids
+    · rw [lookupQ_map_of_mem (fun i => coerce .float ((ids.count i : Nat) : Rat)) _ j hj]
+      rfl
+    · rw [lookupQ_map_of_not_mem (fun i => coerce .float ((ids.count i : Nat) : Rat)) _ j hj]
+      rw [mem_uniq] at hj
+      rw [List.count_eq_zero_of_not_mem hj]; simp
+
+/-- the bit and count fingerprints of one index list have the same support, and the bit view is the
+indicator of a positive count -/
+theorem bit_count_same_support (ids : List Nat) (bits : Nat) (lvl : Int) (g b : Fp)
+    (hg : mkCount .count (some ids) none bits lvl = .ok g) (hb : mkBit ids bits lvl = .ok b) :
+    b.idx = g.idx ∧ ∀ j, b.count j = if 0 < g.count j then 1 else 0 := by
+  obtain ⟨hgi, _, hgc⟩ := count_of_ids ids bits lvl g hg
+  unfold mkBit at hb
+  split at hb
+  · cases hb
+  · cases hb
+    refine ⟨hgi.symm, ?_⟩
+    intro j
+    rw [hgc j, Fp.count_of_bit _ rfl]
+    simp only [mem_uniq]
+    by_cases hj : j ∈ ids
+    · have : 0 < ids.count j := List.count_pos_iff.2 hj
+      have h2 : (0 : Rat) < ((ids.count j : Nat) : Rat) := by exact_mod_cast this
+      rw [if_pos hj, if_pos h2]
+    · rw [if_neg hj, List.count_eq_zero_of_not_mem hj]; simp
+
+/-- both constructors accept or reject the same index lists -/
+theorem bit_count_same_domain (ids : List Nat) (bits : Nat) (lvl : Int) :
+    (∃ b, mkBit ids bits lvl = .ok b) ↔ (∃ g, mkCount .count (some ids) none bits lvl = .ok g) := by
+  unfold mkBit mkCount
+  simp only
+  split
+  · simp
+  · exact ⟨fun _ => ⟨_, rfl⟩, fun _ => ⟨_, rfl⟩⟩
+
+example : mkCount .count (some [3, 1, 3]) none 8 0 = .ok ⟨.count, 8, 0, [1, 3], [(1, 1), (3, 2)]⟩ := by
+  have e1 : coerce .count 1 = 1 := coerce_natCast .count 1
+  have e2 : coerce .count 2 = 2 := coerce_natCast .count 2
+  rw [mkCount_some_none_eq _ _ _ _ (by decide)]
+  simp [uniq, insertU, e1, e2]
+example : mkBit [3, 1, 3] 8 0 = .ok ⟨.bit, 8, 0, [1, 3], []⟩ := rfl
+example : ∃ g, mkCount .count (some [3, 1, 3]) none 8 0 = .ok g ∧ g.count 3 = 2 := by
+  refine ⟨_, mkCount_some_none_eq .count [3, 1, 3] 8 0 (by decide), ?_⟩
+  have := (count_of_ids [3, 1, 3] 8 0 _ (mkCount_some_none_eq .count [3, 1, 3] 8 0 (by decide))).2.2 3
+  rw [this]; simp
+
+/-! ## conversions between the classes -/
+
+/-- conversion of a well-formed fingerprint with positive counts always succeeds -/
+theorem convert_ok (k : Kind) (f : Fp) (hwf : f.WF) (hpos : ∀ p ∈ f.cnt, 0 < p.2) :
+    ∃ g, fromFingerprint k f = .ok g := by
+  by_cases hk : k = .bit
+  · subst hk
+    exact ⟨_, mkBit_eq f.idx f.bits f.level hwf.2.1⟩
+  · exact ⟨_, fromFingerprint_eq k hk f hwf hpos⟩
+
+/-- conversion to any class keeps the support, the length and the level, and lands in the target class -/
+theorem convert_support (k : Kind) (f g : Fp) (hwf : f.WF) (hpos : ∀ p ∈ f.cnt, 0 < p.2)
+    (h : fromFingerprint k f = .ok g) :
+    g.idx = f.idx ∧ g.kind = k ∧ g.bits = f.bits ∧ g.level = f.level ∧ g.WF := by
+  by_cases hk : k = .bit
+  · subst hk
+    have : fromFingerprint .bit f = mkBit f.idx f.bits f.level := rfl
+    rw [this, mkBit_eq f.idx f.bits f.level hwf.2.1, uniq_of_strictAsc _ hwf.1] at h
+    cases h
+    exact ⟨rfl, rfl, rfl, rfl, hwf.1, hwf.2.1, fun _ => rfl, fun e => absurd rfl e⟩
+  · rw [fromFingerprint_eq k hk f hwf hpos] at h
+    cases h
+    refine ⟨rfl, rfl, rfl, rfl, hwf.1, hwf.2.1, fun e => absurd e hk, fun _ => ?_⟩
+    simp [List.map_map, Function.comp_def]
+
+/-- conversion into a count or float class stores the source's `get_count` value through the target's
+value setter, at every position -/
+theorem convert_values (k : Kind) (hk : k ≠ .bit) (f g : Fp) (hwf : f.WF) (hpos : ∀ p ∈ f.cnt, 0 < p.2)
+    (h : fromFingerprint k f = .ok g) (i : Nat) : g.count i = coerce k (f.count i) := by
+  rw [fromFingerprint_eq k hk f hwf hpos] at h
+  cases h
+  refine (Fp.count_of_ne_bit _ hk i).trans ?_
+  simp only
+  by_cases hi : i ∈ f.idx
+  · exact lookupQ_map_of_mem (fun i => coerce k (f.count i)) f.idx i hi
+  · rw [lookupQ_map_of_not_mem (fun i => coerce k (f.count i)) f.idx i hi,
+      Fp.count_of_not_mem f hwf i hi, coerce_zero]
+
+/-- bit → count / float : every set bit becomes a count of 1, nothing else is stored -/
+theorem bit_to_count_values (k : Kind) (hk : k ≠ .bit) (f g : Fp) (hfk : f.kind = .bit) (hwf : f.WF)
+    (h : fromFingerprint k f = .ok g) (i : Nat) :
+    g.idx = f.idx ∧ g.count i = (if i ∈ f.idx then 1 else 0) ∧ g.count i = f.count i := by
+  have hpos : ∀ p ∈ f.cnt, 0 < p.2 := by intro p hp; rw [hwf.2.2.1 hfk] at hp; cases hp
+  have hv := convert_values k hk f g hwf hpos h i
+  have hc := Fp.count_of_bit f hfk i
+  refine ⟨(convert_support k f g hwf hpos h).1, ?_, ?_⟩
+  · rw [hv, hc]; split
+    · exact coerce_one k
+    · exact coerce_zero k
+  · rw [hv, hc]; split
+    · exact coerce_one k
+    · exact coerce_zero k
+
+/-- count → float (indeed anything → float) keeps every count -/
+theorem to_float_values (f g : Fp) (hwf : f.WF) (hpos : ∀ p ∈ f.cnt, 0 < p.2)
+    (h : fromFingerprint .float f = .ok g) (i : Nat) : g.idx = f.idx ∧ g.count i = f.count i :=
+  ⟨(convert_support .float f g hwf hpos h).1, convert_values .float (by simp) f g hwf hpos h i⟩
+
+/-- float → count truncates every value toward zero (`int(v)`); the support is kept even where the
+truncated value is 0 -/
+theorem to_count_values (f g : Fp) (hwf : f.WF) (hpos : ∀ p ∈ f.cnt, 0 < p.2)
+    (h : fromFingerprint .count f = .ok g) (i : Nat) : g.idx = f.idx ∧ g.count i = truncQ (f.count i) :=
+  ⟨(convert_support .count f g hwf hpos h).1, convert_values .count (by simp) f g hwf hpos h i⟩
+
+/-- anything → bit : the bit view is the indicator of the support -/
+theorem to_bit_values (f g : Fp) (hwf : f.WF) (hpos : ∀ p ∈ f.cnt, 0 < p.2)
+    (h : fromFingerprint .bit f = .ok g) (i : Nat) :
+    g.idx = f.idx ∧ g.count i = (if i ∈ f.idx then 1 else 0) := by
+  obtain ⟨hi, hk, _⟩ := convert_support .bit f g hwf hpos h
+  exact ⟨hi, by rw [Fp.count_of_bit g hk, hi]⟩
+
+/-- bit → count → bit is the identity -/
+theorem bit_count_bit (k : Kind) (hk : k ≠ .bit) (f g : Fp) (hfk : f.kind = .bit) (hwf : f.WF)
+    (h : fromFingerprint k f = .ok g) : fromFingerprint .bit g = .ok f := by
+  have hpos : ∀ p ∈ f.cnt, 0 < p.2 := by intro p hp; rw [hwf.2.2.1 hfk] at hp; cases hp
+  rw [fromFingerprint_eq k hk f hwf hpos] at h
+  cases h
+  exact mkBit_self f hfk hwf
+
+def exB : Fp := ⟨.bit, 8, 5, [1, 3], []⟩
+def exC : Fp := ⟨.count, 8, 5, [1, 3], [(1, 2), (3, 1)]⟩
+theorem exB_wf : exB.WF := ⟨by decide, by decide, by simp [exB], by simp [exB]⟩
+theorem exC_wf : exC.WF := ⟨by decide, by decide, by simp [exC], by simp [exC]⟩
+theorem exC_pos : ∀ p ∈ exC.cnt, 0 < p.2 := by
+  intro p hp; simp only [exC, List.mem_cons, List.not_mem_nil, or_false] at hp
+  rcases hp with rfl | rfl <;> grind
+
+example : ∃ g, fromFingerprint .float exC = .ok g ∧ g.idx = [1, 3] ∧ g.count 1 = exC.count 1 := by
+  obtain ⟨g, hg⟩ := convert_ok .float exC exC_wf exC_pos
+  exact ⟨g, hg, (to_float_values exC g exC_wf exC_pos hg 1).1, (to_float_values exC g exC_wf exC_pos hg 1).2⟩
+
+example : ∃ g, fromFingerprint .count exB = .ok g ∧ g.idx = [1, 3] ∧ g.count 3 = 1 := by
+  obtain ⟨g, hg⟩ := convert_ok .count exB exB_wf (by simp [exB])
+  have := bit_to_count_values .count (by simp) exB g rfl exB_wf hg 3
+  exact ⟨g, hg, this.1, by rw [this.2.1]; simp [exB]⟩
+
+example : ∃ g, fromFingerprint .bit exC = .ok g ∧ g.idx = [1, 3] := by
+  obtain ⟨g, hg⟩ := convert_ok .bit exC exC_wf exC_pos
+  exact ⟨g, hg, (convert_support .bit exC g exC_wf exC_pos hg).1⟩
 
 end E3fpVerif.Props.C17
